@@ -63,9 +63,19 @@ def Item.cmp (a b : Item) : Ordering :=
   | .lit (.ref x), .lit (.ref y) => compare x y
   | a, b => compare a.rank b.rank
 
-def lenOk (k : CountKind) (arg : Nat) : Item → Bool
-  | .lit (.str s) => k.ok s.length arg
-  | _ => false
+/-- `count(x)` of one value as the length snippets and their trace (`"actual": count(x)`) see it:
+a string's code points, the keys of an object; undefined for numbers and booleans — then the rule
+body is undefined and nothing is reported, whatever the polarity. -/
+def Item.count? : Item → Option Nat
+  | .lit (.str s) => some s.length
+  | .lit (.ref _) => some 1
+  | .node n => some (1 + (if n.types.isEmpty then 0 else 1) + n.props.length)
+  | _ => none
+
+def lenFires (neg : Bool) (k : CountKind) (arg : Nat) (v : Item) : Bool :=
+  match v.count? with
+  | some l => if neg then k.ok l arg else !k.ok l arg
+  | none => false
 
 def xsd (s : String) : String := "http://www.w3.org/2001/XMLSchema#" ++ s
 
@@ -85,7 +95,7 @@ def Atom.fails (g : Graph) (neg : Bool) : Atom → Node → Bool
   | .count k p arg, n =>
       let c := (valueSet g p n).length
       if neg then k.ok c arg else !k.ok c arg
-  | .length k p arg, n => anyVal neg (valueSet g p n) (lenOk k arg)
+  | .length k p arg, n => (valueSet g p n).any (lenFires neg k arg)
   | .inSet p vals, n => anyVal neg (valueSet g p n) (fun v => vals.contains v.asString)
   | .containsAll p vals, n =>
       let vs := (valueSet g p n).map Item.asString
@@ -106,7 +116,7 @@ def Atom.fails (g : Graph) (neg : Bool) : Atom → Node → Bool
 def graphEnv (g : Graph) (atoms : Array Atom) (paths : Array Path) : Dnf.Env Node where
   fail neg a n := match atoms[a]? with
     | some atm => atm.fails g neg n
-    | none => false
+    | none => neg          -- an index outside the table reads as an atom that always holds
   kids p n := match paths[p]? with
     | some pa => (Item.nodes (den g pa true n)).eraseDups
     | none => []
